@@ -203,7 +203,15 @@ def check_run(r, info, ff, opts, tag, n_ends=None, cyclic=False,
     if all_assigned and abs(total - expected_total) > 1e-3:
         viol.append((f"C02/{tag}/{ff}/total-charge",
                      {"total": round(total, 4), "expected": expected_total}))
-    if n_ends is not None:
+    if isinstance(n_ends, tuple):
+        # (N-termini, C-termini) of a chain with capping groups
+        if (n_nterm, n_cterm) != n_ends:
+            viol.append((f"C02/{tag}/{ff}/terminus-count",
+                         {"n_term": n_nterm, "c_term": n_cterm,
+                          "expected": list(n_ends)}))
+        else:
+            events[f"termini-ok:{tag}"] = events.get(f"termini-ok:{tag}", 0) + 1
+    elif n_ends is not None:
         want = 0 if cyclic else n_ends // 2
         want += extra_ends
         if n_nterm != want or n_cterm != want:
@@ -276,6 +284,45 @@ def run_case(case):
         text = build.pdb_text(atoms)
         tag = "ends"
         n_ends = 2
+    elif mode == "capped":
+        # acetyl / N-methyl / amide caps: the capped end is no terminus
+        caps = case["caps"]
+        x = case["x"]
+        seq = ["GLY", x, "ALA", x, "GLY"]
+        built = build.build_peptide(seq)
+        atoms, info = [], []
+        ccap = next((c for c in caps if c in ("NME", "NH2")), None)
+        for a in built:
+            a = build.BAtom(a)
+            if a["res_idx"] == 0:
+                if "ACE" not in caps or a["name"] == "N":
+                    continue
+                a["res_name"] = "ACE"
+                a["name"] = {"CA": "CH3"}.get(a["name"], a["name"])
+            elif a["res_idx"] == 4:
+                if ccap is None or a["name"] not in ("N", "CA") or \
+                        (ccap == "NH2" and a["name"] == "CA"):
+                    continue
+                a["res_name"] = ccap
+                a["name"] = {"CA": "CH3"}.get(a["name"], a["name"])
+            atoms.append(a)
+        if "ACE" in caps:
+            info.append({"kind": "het", "input": "ACE", "chain": "A",
+                         "res_seq": 1, "icode": ""})
+        for i, nm in enumerate(seq[1:4]):
+            pos = "mid"
+            if i == 0 and "ACE" not in caps:
+                pos = "n"
+            if i == 2 and ccap is None:
+                pos = "c"
+            info.append({"kind": "aa", "input": nm, "chain": "A",
+                         "res_seq": 2 + i, "icode": "", "position": pos})
+        if ccap:
+            info.append({"kind": "het", "input": ccap, "chain": "A",
+                         "res_seq": 5, "icode": ""})
+        text = build.pdb_text(atoms)
+        tag = "capped:" + ("+".join(caps) or "none")
+        n_ends = (0 if "ACE" in caps else 1, 0 if ccap else 1)
     elif mode == "complex":
         # protein chain(s) + nucleic strand + waters in one file
         atoms, info = [], []
@@ -480,6 +527,12 @@ def enumerate_cases(tier, seed):
                     cases.append({"mode": "grid", "ff": ff, "opts": [],
                                   "desc": {"x": x, "pos": pos,
                                            "hydrogens": True}})
+    for ff in corpus.FFS:
+        for caps in (["ACE", "NME"], ["ACE", "NH2"], ["ACE"], ["NME"],
+                     ["NH2"], []):
+            for x in ("ALA", "LYS", "ASP", "PRO"):
+                cases.append({"mode": "capped", "ff": ff, "caps": caps,
+                              "x": x, "opts": []})
     for ff in ("AMBER", "PARSE"):
         for d in (1.20, 1.30, 1.33, 1.346, 1.354, 1.36, 1.40, 1.60):
             cases.append({"mode": "cyclic", "ff": ff, "d": d,
